@@ -232,9 +232,9 @@ func (m *Manager[T]) scan(id string) error {
 		return err
 	}
 
-	if len(nodes) == 0 {
-		return nil
-	}
+	// note: even if no nodes are left we must carry on, so that clients of
+	// nodes that are no longer there (for instance because the group they
+	// live in was deleted) are stopped below
 
 	found := make(map[string]bool)
 
